@@ -84,13 +84,19 @@ theorem reach_main (fuel : Nat) :
         have hs2m : s2.machines = s.machines := by subst hs2; simpa using hs1m
         have hs2r : s2.rt = s.rt := by subst hs2; simpa using hs1r
         obtain ⟨t, htv, htx⟩ := sampleState_mem _ _ _ hss
-        have hT : TargetOK s2 mi next :=
+        have hT0 : ∃ (m : Machine) (r : Runtime) (st : State) (ev : Nat) (vec : List Trans) (t : Trans),
+            s2.machines[mi]? = some m ∧ s2.rt[mi]? = some r ∧ m.states[r.currentState]? = some st ∧
+            st.transitions[ev]? = some (some vec) ∧ t ∈ vec ∧ t.target = next :=
           ⟨m, r, st, ev.toNat, vec, t, by rw [hs2m]; exact hm, by rw [hs2r]; exact hr, hst, hvec, htv, htx⟩
         split
-        · next hend => subst hend; exact Reach.tail h2 (Step.setState _ _ hT)
+        · next hend =>
+          subst hend
+          exact Reach.tail h2 (Step.setState _ _ ⟨hT0, by decide⟩)
         · split
           · exact Reach.tail h2 (Step.signal _ _)
-          · have h3 := h2.trans (enterState_reach ρ mi m r.currentState next s2 hT)
+          · next hsig =>
+            have hT : TargetOK s2 mi next := ⟨hT0, hsig⟩
+            have h3 := h2.trans (enterState_reach ρ mi m r.currentState next s2 hT)
             obtain ⟨r1', hr1', hr1c⟩ := enterState_cur ρ mi m r.currentState next s2 r (by rw [hs2r]; exact hr) rfl
             generalize hs3 : enterState ρ mi m r.currentState next s2 = s3 at h3 hr1' ⊢
             rw [hr1']
